@@ -1308,6 +1308,10 @@ class Pool:
 
     def _iterinactive(self):
         for worker in self._pool:
+            if getattr(worker, '_controlled_termination', False):
+                # already being stopped (by shrink or terminate_job) but not
+                # reaped yet: it cannot be stopped a second time.
+                continue
             if not self._worker_active(worker):
                 yield worker
 
